@@ -10,25 +10,25 @@ open PhyVerif
 
 /-- Kept chunks: whole intervals of the grid at a regular stride starting with the first, never
 more than the requested number — for every grid and every requested number ≥ 1. -/
-theorem chunksKept_ok (bounds : List Int) (nKept : Nat) (hk : 1 ≤ nKept) (hb : 2 ≤ bounds.length) :
+theorem chunksKept_ok (bounds : List Int) (nKept : Nat) (hk : 1 ≤ nKept) :
     keptOK bounds nKept (chunksKept bounds nKept) = true :=
-  Lemmas.chunksKept_ok bounds nKept hk hb
+  Lemmas.chunksKept_ok bounds nKept hk
 
 /-- The parity test in the flattened kept bounds (touching intervals `[a,b,b,c]` included) is
 exactly membership in some kept interval `a ≤ t < b`. -/
-theorem parity_iff_in_kept (bounds : List Int) (nKept : Nat) (hk : 1 ≤ nKept) (hg : GridOK bounds)
+theorem parity_iff_in_kept (bounds : List Int) (nKept : Nat) (hg : GridOK bounds)
     (t : Int) :
     timeInChunks (chunksKept bounds nKept) t = inKept bounds nKept t :=
-  Lemmas.parity_iff_in_kept bounds nKept hk hg t
+  Lemmas.parity_iff_in_kept bounds nKept hg t
 
 /-- Main theorem: for EVERY admissible random choice the selection satisfies all constraints:
 strictly increasing; only spikes of requested clusters, inside kept chunks when asked, inside the
 subset when given; per requested cluster all eligible spikes when they number at most the count
 (or no positive count is given) and exactly `count` of them otherwise; unknown clusters nothing. -/
 theorem selection_ok (choose : List Nat → Nat → List Nat) (hch : ChooseOK choose) (x : Inp)
-    (hk : 1 ≤ x.nKept) (hg : GridOK x.bounds) :
+    (hg : GridOK x.bounds) :
     SpecOK x (selectWith choose x) = true :=
-  Lemmas.selection_ok choose hch x hk hg
+  Lemmas.selection_ok choose hch x hg
 
 /-! Non-vacuity -/
 example : chunksKept [0, 10, 20, 30, 40, 50] 2 = [0, 10, 30, 40] := by decide
